@@ -484,3 +484,216 @@ def is_load_of(fn, ref, field, volatile=None):
         if volatile is not None and ins.volatile != volatile:
             return False
     return bool(fn.sources(ref))
+
+
+# ---------------------------------------------------------------------------
+# stale-value analysis: values invalidated by an event (context switch)
+# ---------------------------------------------------------------------------
+
+class StaleAnalysis:
+    """Forward may-analysis over SSA names.  `tracked(ins_or_param)` says which
+    values are of the tracked kind (e.g. pointers to the worker env) -- derived
+    pointers (GEP/cast/phi/select) inherit.  At every instruction in `events`
+    all tracked values computed so far become stale; a value is fresh again
+    when its defining instruction executes again.  Phi nodes take the staleness
+    of the incoming value of the edge taken.  `uses` lists (instruction,
+    operand ref) pairs where a stale value is consumed."""
+
+    DERIVE = ('getelementptr', 'bitcast', 'ptrtoint', 'inttoptr', 'select', 'addrspacecast')
+
+    def __init__(self, fn, base_tracked, events):
+        self.fn = fn
+        self.events = set(e.id for e in events)
+        self.tracked = set()
+        for p in fn.params:
+            if base_tracked(p):
+                self.tracked.add(p['id'])
+        changed = True
+        for ins in fn.order:
+            if base_tracked(ins):
+                self.tracked.add(ins.id)
+        while changed:
+            changed = False
+            for ins in fn.order:
+                if ins.id in self.tracked:
+                    continue
+                srcs = []
+                if ins.op in self.DERIVE:
+                    srcs = [ins.d['base']] if ins.op == 'getelementptr' else list(ins.ops[-2:] if ins.op == 'select' else ins.ops[:1])
+                elif ins.op == 'phi':
+                    srcs = [v for v, _b in ins.d['incoming']]
+                if any(isinstance(s, str) and s in self.tracked for s in srcs):
+                    self.tracked.add(ins.id)
+                    changed = True
+        self.stale_uses = []
+        self._solve()
+
+    def _operands(self, ins):
+        from .ir import iter_refs
+        return [r for r in iter_refs(ins.d) if r in self.tracked]
+
+    def _solve(self):
+        fn = self.fn
+        state_in = {b.id: None for b in fn.blocks}
+        state_in[0] = frozenset()
+        work = [0]
+        seen_uses = set()
+        it = 0
+        while work and it < 50000:
+            it += 1
+            bid = work.pop()
+            b = fn.blocks[bid]
+            st = set(state_in[bid])
+            dead = False
+            for ins in b.insts:
+                if ins.op == 'phi':
+                    continue  # handled on edges
+                for r in self._operands(ins):
+                    if r in st and ins.op not in self.DERIVE and (ins.id, r) not in seen_uses:
+                        seen_uses.add((ins.id, r))
+                        self.stale_uses.append((ins, r))
+                if ins.id in self.tracked:
+                    if ins.op in self.DERIVE:
+                        src = [ins.d['base']] if ins.op == 'getelementptr' else list(ins.ops)
+                        if any(isinstance(s, str) and s in st for s in src):
+                            st.add(ins.id)
+                        else:
+                            st.discard(ins.id)
+                    else:
+                        st.discard(ins.id)  # fresh value
+                if ins.id in self.events:
+                    st = set(self.tracked_defined_before(ins)) | st
+                if fn.is_noreturn(ins):
+                    dead = True
+                    break
+            if dead:
+                continue
+            for s in fn.succs(b):
+                out = set(st)
+                for ph in fn.blocks[s].insts:
+                    if ph.op != 'phi':
+                        break
+                    if ph.id not in self.tracked:
+                        continue
+                    inc = [v for v, pb in ph.d['incoming'] if pb == bid]
+                    if inc and isinstance(inc[0], str) and inc[0] in st:
+                        out.add(ph.id)
+                    else:
+                        out.discard(ph.id)
+                old = state_in[s]
+                new = frozenset(out) if old is None else (old | frozenset(out))
+                if new != old:
+                    state_in[s] = new
+                    if s not in work:
+                        work.append(s)
+
+    def tracked_defined_before(self, ev):
+        # every tracked value (conservatively: all of them; values defined later are
+        # refreshed when their definition executes)
+        return self.tracked
+
+
+# ---------------------------------------------------------------------------
+# affine forms (P11)
+# ---------------------------------------------------------------------------
+
+def affine(fn, ref, depth=0):
+    """value as {term_key: coeff, '': const}; terms are opaque SSA values
+    (loads, calls, params, phis).  Pointer/integer casts are transparent."""
+    if depth > 40:
+        return {refkey(ref): 1}
+    if isinstance(ref, dict):
+        c = const_int(ref)
+        if c is not None:
+            return {'': c}
+        if ref.get('ce') in ('bitcast', 'ptrtoint', 'inttoptr'):
+            return affine(fn, ref['ops'][0], depth + 1)
+        return {refkey(ref): 1}
+    ins = fn.insts.get(ref)
+    if ins is None:
+        return {ref: 1}
+
+    def comb(a, b, sb=1):
+        out = dict(a)
+        for k, v in b.items():
+            out[k] = out.get(k, 0) + sb * v
+        return {k: v for k, v in out.items() if v != 0 or k == ''}
+    if ins.op in ('bitcast', 'ptrtoint', 'inttoptr', 'zext', 'sext', 'trunc', 'freeze'):
+        return affine(fn, ins.ops[0], depth + 1)
+    if ins.op == 'phi' and len(ins.d['incoming']) == 1:
+        return affine(fn, ins.d['incoming'][0][0], depth + 1)
+    if ins.op == 'add':
+        return comb(affine(fn, ins.ops[0], depth + 1), affine(fn, ins.ops[1], depth + 1))
+    if ins.op == 'sub':
+        return comb(affine(fn, ins.ops[0], depth + 1), affine(fn, ins.ops[1], depth + 1), -1)
+    if ins.op in ('mul', 'shl'):
+        c = const_int(ins.ops[1])
+        if c is not None:
+            k = c if ins.op == 'mul' else (1 << c)
+            return {t: v * k for t, v in affine(fn, ins.ops[0], depth + 1).items()}
+        c = const_int(ins.ops[0])
+        if c is not None and ins.op == 'mul':
+            return {t: v * c for t, v in affine(fn, ins.ops[1], depth + 1).items()}
+    if ins.op == 'getelementptr':
+        out = affine(fn, ins.d['base'], depth + 1)
+        if 'coff' in ins.d:
+            return comb(out, {'': ins.d['coff']})
+        # element-size scaled variable indices: only i8 arrays / byte GEPs are modelled
+        srcty = ins.d.get('srcty', '')
+        path = ins.d['path']
+        if srcty == 'i8' and len(path) == 1 and 'p' in path[0]:
+            return comb(out, affine(fn, path[0]['p'], depth + 1))
+        m = None
+        sz = {'i8*': 8, 'i8**': 8, 'i64': 8, 'i32': 4, 'i16': 2}.get(srcty)
+        if sz and len(path) == 1 and 'p' in path[0]:
+            idx = affine(fn, path[0]['p'], depth + 1)
+            return comb(out, {t: v * sz for t, v in idx.items()})
+        return {ref: 1}
+    return {ref: 1}
+
+
+def affine_str(a):
+    parts = []
+    for k in sorted(a):
+        if k == '':
+            continue
+        parts.append('%+d*%s' % (a[k], k))
+    parts.append('%+d' % a.get('', 0))
+    return ' '.join(parts)
+
+
+def expr_str(fn, ref, depth=0):
+    """canonical structural string of the expression computing `ref` (params by
+    name, loads by access path) - used to compare sibling computations"""
+    if depth > 14:
+        return '...'
+    if isinstance(ref, dict):
+        c = const_int(ref)
+        if c is not None:
+            return str(c)
+        if 'g' in ref:
+            return '@' + ref['g']
+        if 'fn' in ref:
+            return '&' + ref['fn']
+        if 'ce' in ref:
+            return '%s(%s)' % (ref['ce'], ','.join(expr_str(fn, o, depth + 1) for o in ref['ops']))
+        return '?'
+    ins = fn.insts.get(ref)
+    if ins is None:
+        i = fn.param_index(ref)
+        return 'param:' + (fn.params[i]['name'] if i is not None and i < len(fn.params) and fn.params[i]['name'] else ref)
+    if ins.op in ('zext', 'sext', 'trunc', 'bitcast', 'ptrtoint', 'inttoptr'):
+        return '%s.%s(%s)' % (ins.op, ins.ty, expr_str(fn, ins.ops[0], depth + 1))
+    if ins.op == 'load':
+        return 'load(%s)' % fn.ap(ins.ops[0]).desc()
+    if ins.op == 'call':
+        return '%s(%s)' % (ins.callee or 'indirect', ','.join(expr_str(fn, a, depth + 1) for a in ins.args))
+    if ins.op == 'phi':
+        return 'phi(%s)' % ','.join(sorted(expr_str(fn, v, depth + 1) for v, _b in ins.d['incoming'] if v != ref))
+    if ins.op == 'select':
+        return 'select(%s)' % ','.join(expr_str(fn, o, depth + 1) for o in ins.ops)
+    if ins.op == 'icmp':
+        return 'icmp.%s(%s)' % (ins.pred, ','.join(expr_str(fn, o, depth + 1) for o in ins.ops))
+    if ins.op == 'getelementptr':
+        return '&' + fn.ap(ref).desc()
+    return '%s(%s)' % (ins.op, ','.join(expr_str(fn, o, depth + 1) for o in ins.ops))
